@@ -57,6 +57,7 @@ struct LexerCheckpoint<'src> {
     cur_token_start: CharOffset,
     cur_token_line: LineIdx,
     mode_stack_len: usize,
+    errors_len: usize,
     buffer_checkpoint: WorkBufferCheckpoint,
 }
 
@@ -208,6 +209,7 @@ impl Lexer<'_> {
             cur_token_start: self.cur_token_start,
             cur_token_line: self.cur_token_line,
             mode_stack_len: self.mode_stack.len(),
+            errors_len: self.errors.len(),
             buffer_checkpoint: self.buffer.checkpoint(),
         });
     }
@@ -225,6 +227,8 @@ impl Lexer<'_> {
             self.cur_token_start = checkpoint.cur_token_start;
             self.cur_token_line = checkpoint.cur_token_line;
             self.mode_stack.truncate(checkpoint.mode_stack_len);
+            // Errors reported while lexing speculatively refer to tokens that are rolled back
+            self.errors.truncate(checkpoint.errors_len);
             self.buffer.rollback(checkpoint.buffer_checkpoint);
         } else {
             #[cfg(debug_assertions)]
